@@ -399,6 +399,7 @@ class List(  # pytype: disable=signature-mismatch
     mixin.HasSlots.init_mixin(self)
     self.set_native_slot("__getitem__", self.getitem_slot)
     self.set_native_slot("__getslice__", self.getslice_slot)
+    self.set_native_slot("remove", self.remove_slot)
 
   def str_of_constant(self, printer: Callable[[_base.BaseValue], str]) -> str:
     return "[%s]" % ", ".join(
@@ -453,6 +454,13 @@ class List(  # pytype: disable=signature-mismatch
     if unresolved or not self.is_concrete:
       results.append(ret)
     return node, self.ctx.join_variables(node, results)
+
+  def remove_slot(
+      self, node: cfg.CFGNode, value_var: cfg.Variable
+  ) -> tuple[cfg.CFGNode, cfg.Variable]:
+    """Implements remove for List: the elements shift, so pyval is stale."""
+    self.is_concrete = False
+    return self.call_pytd(node, "remove", value_var)
 
   def _get_index(
       self, data: _instance_base.Instance | ConcreteValue
